@@ -319,9 +319,14 @@ def c08ii (o : Obs) (ob : Obl) : Bool :=
 
 def c08iii (o : Obs) (ob : Obl) : Bool := o.fired == some ob.m
 
-/-- signature of known finding D6: the violating press is of the LATEST absorbing trigger (which exempts
-every absorbed key), but the obligation was created by a different trigger -/
-def sigD6 (o : Obs) (ob : Obl) : Bool := o.s.absTrig == some o.e.key && ob.t != o.e.key
+/-- signature of known finding D6 (`absorbing_trigger` is one global slot): the violating press is of the
+LATEST absorbing trigger — which exempts EVERY absorbed key — and either the obligation was created by
+a different trigger, or some other key that is still absorbed and held was absorbed by a different
+firing than the obligation's -/
+def sigD6 (o : Obs) (ob : Obl) : Bool :=
+  o.s.absTrig == some o.e.key &&
+  (ob.t != o.e.key ||
+   (o.s.absorbed.filter fun M2 => M2 != o.e.key && o.s.inp.contains M2).any fun M2 => !ob.m.absorbing.contains M2)
 
 /-- signature of known finding D7: the step fires a mapping whose output ends in a modifier but contains
 a non-modifier key (it is treated as a modifier-remapping and skips `release_absorbed_keys`) -/
